@@ -22,7 +22,10 @@ ALL = [f"C{i:02d}" for i in range(1, 21)]
 
 
 def run_check(prop, root):
-    p = subprocess.run([PY, os.path.join(VERIF, "check"), prop, "--root", root, "--no-evidence", "--json"], capture_output=True, text=True)
+    try:
+        p = subprocess.run([PY, os.path.join(VERIF, "check"), prop, "--root", root, "--no-evidence", "--json"], capture_output=True, text=True, timeout=240)
+    except subprocess.TimeoutExpired:
+        return 2, [], f"ANALYSIS-ERROR property={prop} timeout after 240 s"
     finds = []
     for line in p.stdout.splitlines():
         if line.startswith("FINDING-JSON "):
